@@ -114,12 +114,21 @@ func (db *SingleBucketBackend) ListBucket(bucket string, prefix *gofakes3.Prefix
 }
 
 func (db *SingleBucketBackend) getBucketWithFilePrefixLocked(bucket string, prefixPath, prefixPart string) (*gofakes3.ObjectList, error) {
+	response := gofakes3.NewObjectList()
+
+	if prefixPath != "" {
+		// A prefix below which there is no directory matches no key, and neither
+		// does one with empty, "." or ".." segments (no key contains those, but
+		// the filesystem would resolve them to some other directory).
+		if isDir, _ := afero.IsDir(db.fs, filepath.FromSlash(prefixPath)); !isDir || !cleanKeyPath(prefixPath) {
+			return response, nil
+		}
+	}
+
 	dirEntries, err := afero.ReadDir(db.fs, filepath.FromSlash(prefixPath))
 	if err != nil {
 		return nil, err
 	}
-
-	response := gofakes3.NewObjectList()
 
 	for _, entry := range dirEntries {
 		object := entry.Name()
